@@ -123,6 +123,17 @@ func c04(c *Ctx) {
 			c.Expect(n == 1, nil, f, "padding-credited", "padded DATA frames do not get their padding credited back in "+s.fn)
 			// never skipped for padded frames with data
 			hs := callsIn(f, CalleeX(h2, "Flags.Has"))
+			// the padding test is reached for every charged frame: beyond "the frame has a length" and the nil/error tests
+			// of the arms before it (stream found, accounting accepted, gRPC response) nothing may condition it — a frame
+			// that is all padding was charged in full and must get all of it back
+			if len(hs) == 1 {
+				c.inst(s.fn + ":padding-test-not-conditioned-on-payload @ " + c.siteStr(hs[0]))
+				payloadLen := DataDep(OrV(CallRes(Callee("mem", "BufferSlice.Len"), 0), CallRes(Callee("mem", "Buffer.Len"), 0)))
+				for _, fc := range FactsAt(hs[0]) {
+					dep := fc.X != nil && payloadLen(fc.X) || fc.Y != nil && payloadLen(fc.Y)
+					c.Expect(!dep, hs[0], f, s.fn+":padding-test-not-conditioned-on-payload", "the padding of a DATA frame is credited back only under a condition on the payload length ("+fc.String()+"): a frame that is all padding keeps its whole length charged to the stream window")
+				}
+			}
 			if len(hs) == 1 {
 				q := pathQuery{Fn: f, Starts: []ssa.Instruction{hs[0]}, Barrier: isCallTo(Callee(tr, "inFlow.onRead")), Target: isCallTo(s.writeCM),
 					EdgeBlock: func(from, to *ssa.BasicBlock) bool {
